@@ -120,14 +120,16 @@ fn input_tokens(name: &str, pre: &str, suf: &str, mode: &Mode) -> String {
     format!("C07 {} {} {} {} {} {}", hexs(pre), hexs(suf), hexs(name), hexs(&upper), lowmap, mode.token())
 }
 
-/// str::to_lowercase is context sensitive only for capital sigma; such names are not generated,
-/// and a name on which the per-character table would not describe `to_lowercase` is skipped.
+/// str::to_lowercase is context sensitive only for capital sigma (handled through the echoed call list);
+/// any other name on which the per-character table would not describe `to_lowercase` is skipped.
 fn lowering_is_per_char(name: &str) -> bool {
     name.to_lowercase() == lower_chars(name)
 }
 
 fn emit(out: &mut dyn Write, name: &str, pre: &str, suf: &str, mode: &Mode) {
-    if name.is_empty() || !lowering_is_per_char(name) {
+    // capital sigma is the one character on which str::to_lowercase is context sensitive; for such
+    // names the driver takes `lower` from the whole-string lower-casings echoed in the call list
+    if name.is_empty() || (!lowering_is_per_char(name) && !name.contains('Σ')) {
         return;
     }
     let obs = observe(name, pre, suf, mode);
@@ -177,6 +179,7 @@ fn pick_char(rng: &mut Rng, alpha: usize) -> char {
         }
         4 => *rng.pick(&ILLEGAL),
         5 => *rng.pick(&['.', ' ', '.', ' ', 'a', '_']),
+        7 => *rng.pick(&['Σ', 'σ', 'ς', 'a', 'A', 'Σ', '.', ' ', '_', '\u{0301}', 'Ω', 'b']),
         _ => *rng.pick(&['a', 'b', 'c', 'x', 'y', 'z', '0', '1', '_', '.', 'é', '語']),
     }
 }
@@ -221,7 +224,7 @@ fn random_name(rng: &mut Rng) -> String {
     if rng.chance(1, 12) {
         return reserved_variant(rng);
     }
-    let alpha = rng.below(7);
+    let alpha = rng.below(9);
     let target = target_len(rng);
     let mut s = String::new();
     let mut bytes = 0usize;
@@ -379,6 +382,59 @@ pub fn gen(tier: &str, seed: u64, out: &mut dyn Write) {
                 }
             }
             emit(out, &other, pre, suf, &Mode::Taken(taken));
+        }
+    }
+    // 3b. a run of periods/spaces up to the cut followed by one character of 1..4 bytes (the exact
+    //     guard of the layer prefix is in bytes: `fileName_affixes_layer_iff`)
+    for len in 236..=252usize {
+        for ch in ['a', 'A', '/', 'é', '語', '💖', '.'] {
+            for fill in ['.', ' '] {
+                let mut name: String = std::iter::repeat(fill).take(len).collect();
+                name.push(ch);
+                for (pre, suf) in AFFIXES {
+                    emit(out, &name, pre, suf, &Mode::Kth(0));
+                    emit(out, &name, pre, suf, &Mode::Kth(1));
+                }
+            }
+        }
+    }
+    // 3c. capital sigma: every name of length <= 4 over {a A S-igma s-igma .}, both pairs, accepted at once,
+    //     after one clash, and with the taken-set {lower-cased first result} (so the clash is decided on the
+    //     real whole-string lower-casing, final sigma included)
+    const SIG: [char; 5] = ['a', 'A', 'Σ', 'σ', '.'];
+    for len in 1..=4usize {
+        let mut idx = vec![0usize; len];
+        'outer: loop {
+            let name: String = idx.iter().map(|i| SIG[*i]).collect();
+            if name.contains('Σ') {
+                for (pre, suf) in AFFIXES {
+                    emit(out, &name, pre, suf, &Mode::Kth(0));
+                    emit(out, &name, pre, suf, &Mode::Kth(1));
+                    let (_, res, _) = run(&name, pre, suf, &Mode::Kth(0));
+                    if let Some(r) = res {
+                        emit(out, &name, pre, suf, &Mode::Taken(vec![r.to_lowercase()]));
+                        // the other lower-case sigma in the taken-set must NOT clash
+                        let other: String = r
+                            .to_lowercase()
+                            .chars()
+                            .map(|c| if c == 'ς' { 'σ' } else if c == 'σ' { 'ς' } else { c })
+                            .collect();
+                        emit(out, &name, pre, suf, &Mode::Taken(vec![other]));
+                    }
+                }
+            }
+            let mut k = len;
+            loop {
+                if k == 0 {
+                    break 'outer;
+                }
+                k -= 1;
+                idx[k] += 1;
+                if idx[k] < SIG.len() {
+                    break;
+                }
+                idx[k] = 0;
+            }
         }
     }
     // 4. histories: 0, 1, 2, .., 98, 99, 100 clashes from taken-sets built out of earlier results
